@@ -280,7 +280,7 @@ Section RdpFacts.
         apply Nat.ltb_lt in Ha, Hb. apply existsb_exists in Hc. destruct Hc as (x & Hx & Hxe).
         apply Nat.eqb_eq in Hxe. subst x.
         eapply Expl_split; eauto.
-      + apply Expl_keep; [apply none_inside_iff; exact H|]. right. reflexivity.
+      + apply Expl_keep; [apply none_inside_iff; exact H|]. right. exact Ec.
   Qed.
   Lemma explb_complete S l r : Expl S l r -> forall fuel, r - l < fuel -> explb fuel S l r = true.
   Proof.
